@@ -217,9 +217,14 @@ impl Index for HnswIndex {
         // Prepare query vector
         let prepared_query = self.prepare_vector(query);
 
+        // Entries deleted since the graph was last rebuilt are still in the graph:
+        // they must not be returned, so ask for that many more candidates and
+        // drop the tombstoned ones below.
+        let tombstones = self.tombstones.read();
+
         // For Manhattan, request more candidates since L2 ordering != L1 ordering.
         // Reranking from a larger candidate set improves recall.
-        let search_k = if is_manhattan { k * 4 } else { k };
+        let search_k = if is_manhattan { k * 4 } else { k } + tombstones.len();
         let raw_results = inner.hnsw.search(&prepared_query, search_k, ef_search);
 
         // Map internal indices to tuple IDs using the stored mapping
@@ -232,6 +237,9 @@ impl Index for HnswIndex {
                     let internal_idx = neighbour.d_id;
                     if internal_idx < inner.index_to_tuple_id.len() {
                         let tuple_id = inner.index_to_tuple_id[internal_idx];
+                        if tombstones.contains(&tuple_id) {
+                            return None;
+                        }
                         // Find the stored vector for this tuple_id
                         if let Some((_, stored_vec)) =
                             vectors.iter().find(|(id, _)| *id == tuple_id)
@@ -253,6 +261,9 @@ impl Index for HnswIndex {
                     let internal_idx = neighbour.d_id;
                     if internal_idx < inner.index_to_tuple_id.len() {
                         let tuple_id = inner.index_to_tuple_id[internal_idx];
+                        if tombstones.contains(&tuple_id) {
+                            return None;
+                        }
                         let dist = self.transform_distance(neighbour.distance);
                         Some((tuple_id, dist))
                     } else {
